@@ -124,6 +124,15 @@ def main():
             open(ep, "w").write(txt)
     ran["checks"] = results
     dst = os.path.join("/verif/seeded", a.sid)
+    if a.skip_confirm and os.path.exists(os.path.join(dst, "meta.json")):
+        # keep the confirmation recorded by an earlier full evaluation
+        try:
+            old = json.load(open(os.path.join(dst, "meta.json"))).get("ran", {})
+            for k, v in old.items():
+                if k not in ran and k != "checks":
+                    ran[k] = v
+        except Exception:
+            pass
     if os.path.exists(dst):
         shutil.rmtree(dst)
     shutil.copytree(src, dst)
